@@ -195,8 +195,9 @@ class At5Zone(pyairtouch.api.Zone):
             )
         set_point = round(temperature, ndigits=1)
         encoded_set_point = pyairtouch.at5.comms.utils.encode_set_point(set_point)
-        if encoded_set_point < 0 or encoded_set_point > 255:  # noqa: PLR2004
-            # The value doesn't fit into the message, so it could never be sent.
+        if encoded_set_point < 0 or encoded_set_point > 250:  # noqa: PLR2004
+            # The protocol carries set-points of 10.0 to 35.0 degrees (0-250).
+            # Other values mean "keep the setting" or do not fit at all.
             raise ValueError(f"temperature {temperature} cannot be represented")
         await self._send_zone_control_message(
             zone_setting=zone_ctrl_msg.ZoneSetPointControl(set_point)
